@@ -171,7 +171,7 @@ def expectedCopyCalls : List SrcFact := [
 /-- the store policy the properties need, as a check on one extracted store: encoders store only into
 their own `buffer` field (never through the value pointer `v`, the message or an element of a
 caller's slice); decoders store only into their own cursor fields and through the output pointers
-`v` / `out` (never into an element of the input slice); the error field is only written by `fail`;
+(whatever their names; never into an element of the input slice); the error field is only written by `fail`;
 `PutUvarint` writes the window it is handed; the picoconv and map decoders store through their
 receiver only in `PicoDecode` (aggregated rows `*` of the generated files). -/
 def isSuf (suf s : String) : Bool := suf.toList.isSuffixOf s.toList
@@ -186,13 +186,13 @@ def storeAllowed (f : SrcFact) : Bool :=
   if f.file == "encoder.go" || f.file == "encoder_types.go" then
     isSuf ".buffer" f.what && !elem
   else if f.file == "decoder.go" || f.file == "decoder_types.go" then
-    !elem && (f.what == "out*" || f.what == "v*" ||
+    !elem && ((isSuf "*" f.what && !hasSub "." f.what) ||
       (isSuf ".err" f.what && (f.fn == "Decoder.fail")) ||
       [".init", ".pendingField", ".pendingWire", ".buffer", ".messageDecodeState", ".stack"].any (isSuf · f.what))
   else if f.file == "internal/protowire/stdlib.go" then f.fn == "PutUvarint" && f.what == "buf[]"
-  else if f.file == "picoconv/duration.go" then f.fn == "Duration.PicoDecode" && f.what == "d*"
-  else if f.file == "picoconv/timestamp.go" then f.fn == "Timestamp.PicoDecode" && f.what == "t*"
-  else if f.file == "picowire/map.go" then f.fn == "*" && (f.what == "m*" || f.what == "m*[]")
+  else if f.file == "picoconv/duration.go" then f.fn == "Duration.PicoDecode" && isSuf "*" f.what && !hasSub "." f.what
+  else if f.file == "picoconv/timestamp.go" then f.fn == "Timestamp.PicoDecode" && isSuf "*" f.what && !hasSub "." f.what
+  else if f.file == "picowire/map.go" then f.fn == "*" && (isSuf "*" f.what || isSuf "*[]" f.what) && !hasSub "." f.what
   else false
 
 /-- a `copy` call is allowed when it moves bytes inside the encoder's own buffer -/
